@@ -163,10 +163,12 @@ func (m *monitor) engineRunning() bool {
 	return running
 }
 
-// asyncSettled: runAsync has handled every enqueue signal it received and is
-// back at its select (so the engine goroutine has been started for each).
+// asyncSettled: runAsync has handled every enqueue signal that was sent (the
+// channel is unbuffered, so sent = received; "drain.signalled" is counted by
+// the sending goroutine right after the send) and is back at its select, so
+// the engine goroutine has been started for each of them.
 func (m *monitor) asyncSettled() bool {
-	return m.cnt[pAsyncIdle].Load() == m.cnt[pAsyncSignal].Load()+1
+	return m.cnt[pAsyncIdle].Load() == m.cnt[pDrainSignalled].Load()+1
 }
 
 func (m *monitor) hold(cond func() bool) {
@@ -192,6 +194,7 @@ func (m *monitor) hook(point string) {
 	if !ok {
 		return
 	}
+	m.cnt[i].Add(1) // counted on entry, before any hold or delay
 	if i == pAsyncSignal && m.engineRunning() {
 		// observed before any hold: was this command about to be injected
 		// into a running engine?
@@ -200,7 +203,6 @@ func (m *monitor) hook(point string) {
 		}
 	}
 	if i == pNotify { // called with the queue's listener mutex held: never delay here
-		m.cnt[i].Add(1)
 		if m.inEvent.Load() {
 			// a command completed inside the current event: the application is
 			// about to be woken while the engine still has the tail events of
@@ -233,7 +235,6 @@ func (m *monitor) hook(point string) {
 			m.hold(func() bool { return m.asyncSettled() && !m.engineRunning() })
 		}
 	}
-	m.cnt[i].Add(1)
 	if m.delays {
 		m.randomDelay(i)
 	}
